@@ -266,6 +266,9 @@ func orderInsensitive(info *types.Info, f *ScopeFunc, body *ast.BlockStmt, loop 
 		}
 	}
 	visit(body.List)
+	if bad == "" {
+		bad = firstMatchReturn(info, body, loop, local)
+	}
 	if bad != "" {
 		return "body contains " + bad, false
 	}
@@ -696,4 +699,104 @@ func mapStoreCollides(info *types.Info, loop ast.Node, lv *ast.IndexExpr, as *as
 		return !dep
 	})
 	return dep
+}
+
+// firstMatchReturn: a return inside an unordered iteration that hands back a value taken from the
+// current element returns "the first match in iteration order". That is order-free only when at
+// most one element can match: the return is guarded by an equality between the iteration's own
+// map key and something that does not depend on the iteration. A test of a *function* of the key
+// (a trimmed or folded name) can hold for several keys, and which of them is met first varies.
+func firstMatchReturn(info *types.Info, body *ast.BlockStmt, loop ast.Node, local map[types.Object]bool) string {
+	iter := map[types.Object]bool{}
+	var keyObj types.Object
+	switch l := loop.(type) {
+	case *ast.RangeStmt:
+		if id, ok := l.Key.(*ast.Ident); ok && id.Name != "_" {
+			keyObj = info.ObjectOf(id)
+			iter[keyObj] = true
+		}
+		if id, ok := l.Value.(*ast.Ident); ok && id.Name != "_" {
+			iter[info.ObjectOf(id)] = true
+		}
+		if _, isMap := info.TypeOf(l.X).Underlying().(*types.Map); !isMap {
+			keyObj = nil
+		}
+	case *ast.FuncLit:
+		for _, p := range l.Type.Params.List {
+			for _, nm := range p.Names {
+				iter[info.ObjectOf(nm)] = true
+			}
+		}
+	default:
+		return ""
+	}
+	dependent := func(e ast.Expr) bool {
+		hit := false
+		ast.Inspect(e, func(n ast.Node) bool {
+			if id, ok := n.(*ast.Ident); ok {
+				if o := info.ObjectOf(id); o != nil && (iter[o] || local[o]) {
+					hit = true
+				}
+			}
+			return !hit
+		})
+		return hit
+	}
+	var uniqueKeyTest func(c ast.Expr) bool
+	uniqueKeyTest = func(c ast.Expr) bool {
+		b, ok := core.Unparen(c).(*ast.BinaryExpr)
+		if !ok {
+			return false
+		}
+		if b.Op == token.LAND {
+			return uniqueKeyTest(b.X) || uniqueKeyTest(b.Y)
+		}
+		if b.Op != token.EQL || keyObj == nil {
+			return false
+		}
+		isKey := func(e ast.Expr) bool {
+			id, ok := core.Unparen(e).(*ast.Ident)
+			return ok && info.ObjectOf(id) == keyObj
+		}
+		return (isKey(b.X) && !dependent(b.Y)) || (isKey(b.Y) && !dependent(b.X))
+	}
+	bad := ""
+	var stack []ast.Node
+	ast.Inspect(body, func(n ast.Node) bool {
+		if n == nil {
+			stack = stack[:len(stack)-1]
+			return true
+		}
+		stack = append(stack, n)
+		if _, ok := n.(*ast.FuncLit); ok && n != loop {
+			return true
+		}
+		ret, ok := n.(*ast.ReturnStmt)
+		if !ok || bad != "" {
+			return true
+		}
+		var dep ast.Expr
+		for _, res := range ret.Results {
+			if isErrorType(info.TypeOf(res)) {
+				continue
+			}
+			if tv, ok := info.Types[res]; ok && tv.Value != nil {
+				continue
+			}
+			if dependent(res) {
+				dep = res
+			}
+		}
+		if dep == nil {
+			return true
+		}
+		for _, anc := range stack {
+			if is, ok := anc.(*ast.IfStmt); ok && is.Body.Pos() <= ret.Pos() && ret.End() <= is.Body.End() && uniqueKeyTest(is.Cond) {
+				return true
+			}
+		}
+		bad = "return of " + core.ExprStr(dep) + ", a value of the element met first: when more than one element passes the test, which one is returned depends on the iteration order"
+		return true
+	})
+	return bad
 }
